@@ -24,6 +24,17 @@ func (c *CDB) SetHook(h func(method string) error) {
 	c.mu.Unlock()
 }
 
+// TotalCalls: number of interposed node-database calls so far.
+func (c *CDB) TotalCalls() int64 {
+	c.mu.Lock()
+	defer c.mu.Unlock()
+	var t int64
+	for _, v := range c.n {
+		t += int64(v)
+	}
+	return t
+}
+
 func (c *CDB) Calls(method string) int {
 	c.mu.Lock()
 	defer c.mu.Unlock()
